@@ -346,7 +346,7 @@ impl<'a> Exec<'a> {
             Op::CrashReopen { lazy, damage } => {
                 self.crash_reopen(*lazy, damage).await?;
             }
-            Op::Fail { .. } | Op::Cancel { .. } => {
+            Op::Fail { .. } | Op::Cancel { .. } | Op::InitAgain => {
                 // interpreted by the property modules that use them
             }
             Op::Probe { key, kind } => {
